@@ -34,6 +34,7 @@ new-seeded)
   # new-seeded <id>... : ids like S10-C07 (property taken from the id); both build profiles
   for id in $ONLY; do
     p=$(echo "$id" | sed 's/.*-\(C[0-9][0-9]\).*/\1/')
+    case "$id" in *:*) p=${id#*:}; id=${id%%:*};; esac   # S12-C06:C07 = run check C07 against S12-C06
     git -C "$REPO" apply "$HERE/seeded/$id/patch.diff" || { echo "$id: patch does not apply"; bad=1; continue; }
     res=$(VERIF_MIRI=${VERIF_MIRI:-0} VERIF_SECOND_PASS=0 ./check "$p" quick 2>&1); code=$?
     echo "$id $p exit=$code $(echo "$res" | grep -E '^violation:|HARNESS' | head -1 | cut -c1-330)"
